@@ -173,6 +173,7 @@ int main(int argc, char **argv)
 		if (!vx_mine((uint64_t)i)) continue;
 		if (vx_deadline_passed()) { vx_and("exhaustive", 0); vx_count("scenarios_skipped_deadline", 1); continue; }
 		build(&cfgs[i]);
+		double t_scn = vx_now();
 		vs_explore(&S, &O, &st);
 		if (st.racy) {
 			vs_options F = O; F.fine_grained = 1; F.race_detect = 0;
@@ -181,6 +182,7 @@ int main(int argc, char **argv)
 			vs_explore(&S, &F, &st);
 		}
 		done++;
+		if (vx_now() - t_scn > 4.0) vx_note("slow scenario %s: %.1f s, %llu states", S.name, vx_now() - t_scn, (unsigned long long)st.states);
 		vx_count("scenarios", 1);
 		vx_count("states", st.states); vx_count("transitions", st.steps + st.interrupts_injected); vx_count("traces", st.executions);
 		vx_count("distinct", st.states);
